@@ -23,6 +23,7 @@ float sgn(size_t bits, int k) { return ((bits >> k) & 1) ? 1.0f : -1.0f; }
 
 // reopened: the history runs on the model as loaded from a file the library wrote (it then owns whatever blocks and cached
 // data a save creates), not on the freshly created one
+void historyOn(NifFile& nif, const std::string& SN, const JV& h, size_t k, const char* ver, bool reopened, const std::string& file, std::string& out);
 void history(const JV& h, size_t k, const char* ver, bool reopened, std::string& out) {
 	NifFile nif;
 	nif.Create(versionByName(ver));
@@ -35,6 +36,12 @@ void history(const JV& h, size_t k, const char* ver, bool reopened, std::string&
 		shape = byName(nif, "S");
 		if (!shape) return;
 	}
+	historyOn(nif, "S", h, k, ver, reopened, "", out);
+}
+// the history on the shape named SN of a live model (constructed, or a sample file's: every geometry kind the samples hold)
+void historyOn(NifFile& nif, const std::string& SN, const JV& h, size_t k, const char* ver, bool reopened, const std::string& file, std::string& out) {
+	NiShape* shape = byName(nif, SN);
+	if (!shape) return;
 	bool bs = dynamic_cast<BSTriShape*>(shape) != nullptr;
 	ContentIds ids;
 	size_t step = 0;
@@ -46,14 +53,14 @@ void history(const JV& h, size_t k, const char* ver, bool reopened, std::string&
 		NifFile copy(nif);
 		NifFile re;
 		if (loadFromString(re, saveToString(copy, true, true)) != 0) return false;
-		NiShape* rs = byName(re, "S");
+		NiShape* rs = byName(re, SN);
 		if (!rs) return false;
 		// the first reload brings every value to the storage precision of the format: compare from the second on
 		std::string r1 = projectShape(re, rs, ids);
 		NifFile re2;
 		NifFile copy2(re);
 		if (loadFromString(re2, saveToString(copy2, true, true)) != 0) return false;
-		NiShape* rs2 = byName(re2, "S");
+		NiShape* rs2 = byName(re2, SN);
 		if (!rs2) return false;
 		JObj ev;
 		ev.add("e", "reloadsame").raw("case", cj.done()).raw("t", r1).raw("r", projectShape(re2, rs2, ids));
@@ -68,13 +75,13 @@ void history(const JV& h, size_t k, const char* ver, bool reopened, std::string&
 		return true;
 	};
 	for (auto& opv : h.a) {
-		shape = byName(nif, "S");
+		shape = byName(nif, SN);
 		if (!shape) return;
 		const std::string op = opv["op"].s;
 		size_t v = (size_t) opv["v"].n;
 		size_t nv = shape->GetNumVertices();
 		JObj cj;
-		cj.add("case", (long long) k).add("ver", ver).add("step", (long long) step++).add("reopened", reopened);
+		cj.add("case", (long long) k).add("ver", ver).add("step", (long long) step++).add("reopened", reopened).add("file", file).add("shape", SN);
 		if (op == "reload") {
 			if (!reloadCheck(cj.done())) return;
 			continue;
@@ -110,7 +117,7 @@ void history(const JV& h, size_t k, const char* ver, bool reopened, std::string&
 			size_t n = op == "verts" ? nv : (v == 0 ? nv + 1 : (v == 1 ? std::max<size_t>(1, nv - 1) : nv + 3));
 			if (op == "vertsN" && n == nv) n = nv + 2;
 			std::vector<Vector3> d;
-			for (size_t i = 0; i < n; i++) d.emplace_back(float(i + 8 * v), float(v), 1.0f);
+			for (size_t i = 0; i < n; i++) d.emplace_back(float((i % 512) + 8 * v), float(v + i / 512), 1.0f);
 			given = cidList(d, ids);
 			nif.SetVertsForShape(shape, d);
 			if (op == "vertsN") {
@@ -179,12 +186,55 @@ void history(const JV& h, size_t k, const char* ver, bool reopened, std::string&
 		out += ev.done() + "\n";
 	}
 	// every history ends with a save and reload
-	shape = byName(nif, "S");
+	shape = byName(nif, SN);
 	if (shape && !h.a.empty() && h.a.back()["op"].s != "reload") {
 		JObj cj;
-		cj.add("case", (long long) k).add("ver", ver).add("step", (long long) step).add("reopened", reopened).add("final", true);
+		cj.add("case", (long long) k).add("ver", ver).add("step", (long long) step).add("reopened", reopened).add("file", file).add("shape", SN).add("final", true);
 		reloadCheck(cj.done());
 	}
+}
+
+// c13-samples <out.ndjson>: single-setter histories (+ the composite fill) on up to three shapes of every sample file, so that
+// every geometry kind the samples hold (dynamic, LOD, sub-index, strips-free legacy, Starfield geometry) is written to
+int cmdSamples(int argc, char** argv) {
+	if (argc < 2) return 2;
+	std::string outPath = argv[1];
+	auto files = sampleFiles();
+	{ Out trunc(outPath); }
+	const char* ops[] = {"verts", "uvs", "normals", "tangents", "bitangents", "colors", "eye", "tris", "all"};
+	size_t crashes = runForkedCases(
+		files.size(), outPath, 600,
+		[&](size_t fi, std::string& out) {
+			NifFile probe;
+			if (probe.Load(samplePath(files[fi])) != 0) return;
+			auto names = probe.GetShapeNames();
+			std::string ver = versionName(probe.GetHeader().GetVersion());
+			size_t count = 0;
+			for (auto& sn : names) {
+				auto ps = byName(probe, sn);
+				if (!ps || ps->GetNumVertices() == 0 || ps->GetNumVertices() > 6000) continue;
+				if (count++ >= 3) break;
+				for (auto op : ops) {
+					// eye data of dynamic shapes is derived from the positions on save (by design); new triangles on a skinned
+					// shape need a partition rebuild, which is C10's subject
+					if (std::string(op) == "eye" && dynamic_cast<BSDynamicTriShape*>(ps)) continue;
+					if (std::string(op) == "tris" && (ps->IsSkinned() || (ps->SkinInstanceRef() && !ps->SkinInstanceRef()->IsEmpty()))) continue;
+					NifFile nif;
+					if (nif.Load(samplePath(files[fi])) != 0) return;
+					JArr h;
+					JObj o;
+					o.add("op", op).add("v", (long long) (fi % 3));
+					h.raw(o.done());
+					JV hv = jparse(h.done());
+					historyOn(nif, sn, hv, fi, ver.c_str(), true, files[fi], out);
+				}
+			}
+		},
+		[&](size_t fi, const std::string& why, FILE* out) {
+			fprintf(out, "{\"e\":\"crash\",\"chunk\":%zu,\"file\":%s,\"why\":%s}\n", fi, J::str(files[fi]).s.c_str(), J::str(why).s.c_str());
+		});
+	printf("{\"files\":%zu,\"crashes\":%zu}\n", files.size(), crashes);
+	return 0;
 }
 
 int cmdCases(int argc, char** argv) {
@@ -278,4 +328,5 @@ int cmdLimits(int argc, char** argv) {
 }
 Reg r1("c13-cases", cmdCases);
 Reg r2("c13-limits", cmdLimits);
+Reg r3("c13-samples", cmdSamples);
 } // namespace
